@@ -122,7 +122,7 @@ def main():
         ],
         "checks": checks,
         "not_applicable": na,
-        "notes": "See DESIGN.md. Exit 2 of a check means inconclusive (timeout, memory, build failure, bound too small, vacuous harness, non-reproducing counterexample); it is never reported as success or as a violation.",
+        "notes": "See DESIGN.md (section 8 = as built). Harnesses with tier experimental in bin/registry.py are run by no registered command and nothing is claimed from them. Exit 2 of a check means inconclusive (timeout, memory, build failure, bound too small, vacuous harness, non-reproducing counterexample); it is never reported as success or as a violation.",
     }
     json.dump(m, open(os.path.join(ROOT, "MANIFEST.json"), "w"), indent=1)
     print("wrote MANIFEST.json:", len(checks), "checks,", len(na), "not_applicable")
